@@ -304,7 +304,9 @@ Lemma raise_closes_then_truncates : forall lim faults fixed fuel inrec p s tf re
   raise lim fixed (Model.exec lim faults fixed fuel) inrec p s =
     match r with
     | (s1, ONorm) => handle_throw p s1
-    | (s1, OPanic p') => if inrec && negb fixed then (deviate 23 s1, OEscaped p') else handle_throw p' (with_regs_of s s1)
+    | (s1, OPanic p') =>
+        let s2 := restore_stacks (t_iter tf) (t_ref tf) s1 in     (* the deferred dropStacks *)
+        if inrec && negb fixed then (deviate 23 s2, OEscaped p') else handle_throw p' (with_regs_of s s2)
     | (s1, _) => (s1, OStuck)
     end /\
   (* every return() call that comes back restores every register and stack; only then the stacks are cut *)
@@ -317,7 +319,7 @@ Proof.
   destruct (restore_regs_fields tf s) as (f1 & f2 & f3 & f4 & f5 & f6 & f7 & _).
   assert (Hits : its sm = its s) by (unfold sm; cbn -[restore_regs]; exact f1).
   split; [exact Hits|]. split.
-  - unfold raise, close_phase. rewrite Hc, Ht. fold sm. rewrite Hits. fold dropped. fold r. reflexivity.
+  - unfold raise, close_phase. rewrite Hc, Ht. fold sm. rewrite Hits. fold dropped. fold r. destruct r as [s1 o]. destruct o; reflexivity.
   - intros Hn D.
     destruct (close_items_inv lim fixed (Model.exec lim faults fixed fuel) (exec_inv lim faults fixed fuel) dropped sm) as (A & B & C).
     fold r in A, B, C. rewrite Hn in C.
@@ -348,8 +350,8 @@ Definition w16c := ARun [Async [] [Probe]].                  (* async continuati
 Definition w17 := ARun [Call []].                            (* limit 0: top-level stack overflow *)
 Definition w21 := ARun [Call [Native [NRun false [Probe]]]]. (* limit 2: re-entrant RunString at the limit *)
 Definition w22 := ARun [Then [Effect 7]; Probe].             (* foreign Go panic with a job pending *)
-(* for (x of it) { probe() }: the probe throws (a Go panic), it.return() calls probe() which interrupts *)
-Definition w23 := ARun [ForOf 1 [] 1 [Probe] (Some [Probe; Effect 1001])].
+(* try { for (x of it) { probe() } } catch {}: the probe throws (a Go panic), it.return() calls probe() which interrupts *)
+Definition w23 := ARun [Try [ForOf 1 [] 1 [Probe] (Some [Probe; Effect 1001])] [Effect 5] [] true false].
 
 Lemma former_findings_repaired :
   idle_after None [(0%nat, FIntr)] false w16 = true /\ idle_after (Some 3%nat) [] false w16b = true /\
